@@ -18,7 +18,7 @@ RULE = ('case = generated workflow with several recurrences, offsets incl. '
         'future triggers, stop-after point; distinct by event census')
 ASSUMPTIONS = ['stop point = [scheduling]stop after cycle point']
 MIN = {'c07.adds': 1500, 'c07.submits': 1000}
-NCASES = {'quick': 300, 'thorough': 4000}
+NCASES = {'quick': 1000, 'thorough': 12000}
 
 
 def ncases(tier):
